@@ -477,7 +477,9 @@ async fn run_history(case: &Value, base: &Path) -> Value {
 fn main() {
     std::panic::set_hook(Box::new(|_| {}));
     let rt = tokio::runtime::Builder::new_current_thread().enable_all().build().unwrap();
-    let root = std::env::temp_dir().join(format!("verif-c19-{}", std::process::id()));
+    // unique even when several checks run at once in different pid namespaces sharing the scratch dir
+    let nanos = std::time::SystemTime::now().duration_since(std::time::UNIX_EPOCH).map(|d| d.as_nanos()).unwrap_or(0);
+    let root = std::env::temp_dir().join(format!("verif-c19-{}-{nanos}", std::process::id()));
     let stdin = std::io::stdin();
     let out = std::io::stdout();
     let mut n = 0u64;
